@@ -1761,6 +1761,27 @@ theorem evalOr_error_mem (env : Env) (cs : List Spec) (t : V) (e : PyExc) (hne :
         · rw [hc] at h; injection h with h; subst h
           exact ⟨c, by simp, hc⟩
 
+/-- a result of Or is the result of one of its children (on the same target) -/
+theorem evalOr_ok_mem (env : Env) (cs : List Spec) (t r : V)
+    (h : (evalOr env cs t).1 = .ok r) : ∃ c ∈ cs, (eval env c t).1 = .ok r := by
+  induction cs with
+  | nil => simp [evalOr] at h
+  | cons c cs ih =>
+    cases cs with
+    | nil => rw [evalOr] at h; exact ⟨c, by simp, h⟩
+    | cons c' cs' =>
+      rw [evalOr] at h
+      cases hc : (eval env c t).1 with
+      | ok v => rw [hc] at h; simp only at h; rw [hc] at h; exact ⟨c, by simp, by rw [hc]; exact h⟩
+      | error e' =>
+        rw [hc] at h
+        simp only at h
+        split at h
+        · simp only at h
+          obtain ⟨c'', hm, hc''⟩ := ih h
+          exact ⟨c'', by simp [hm], hc''⟩
+        · rw [hc] at h; cases h
+
 theorem evalSwitch_error (env : Env) (cases : List (Spec × Spec)) (d : Option Arg) (t : V) (e : PyExc)
     (h : (evalSwitch env cases d t).1 = .error e) :
     (∃ p ∈ cases, (eval env p.1 t).1 = .error e ∨ (eval env p.2 t).1 = .error e) ∨
